@@ -73,6 +73,15 @@ def generate(g, tier):
         for t in deliveries(g, cmd, arg, is_int or arg in BOUNDARY_INT and arg not in BOUNDARY_STR):
             pre = 'STRING before\n' if g.chance(0.3) else ''
             cases.append(dict(op='compile', src=dict(text=pre + t), meta=dict(family='triple')))
+    # every validated command with EVERY boundary argument (the spellings a host-language number parser accepts and the
+    # documented grammar does not — signs, underscores, over-long zero-padded codes, other scripts' digits — are only wrong for one
+    # command each, so sampling pairs misses them): inline, and in one more delivery form
+    for cmd in VALIDATED:
+        is_int = cmd in DELAYS
+        for arg in (BOUNDARY_INT if is_int else BOUNDARY_STR + ['٦٥', '６５', '0x41', '1e1', '6 5', '０', '000', '0000', '00000']):
+            ts = deliveries(g, cmd if g.chance(0.7) else cmd.lower(), arg, is_int)
+            for t in [ts[0]] + [r.choice(ts[1:])]:
+                cases.append(dict(op='compile', src=dict(text=t), meta=dict(family='triple-all')))
     # several different arguments in ONE invocation (grouped, first argument + group, $-evaluated): each one is validated on its
     # own, whatever was accepted before it (equal-valued pairs such as 1/TRUE, 0/FALSE, 5/"5", 2/2.0 included)
     PAIRS_INT = [('1', 'TRUE'), ('TRUE', '1'), ('0', 'FALSE'), ('5', '"5"'), ('2', '2.5'), ('3', '0-3'), ('1', '1==1'), ('0', '0-0'), ('7', '7'), ('1', '1.0')]
